@@ -13,6 +13,12 @@ Driver ops of property C13 (date codecs and arithmetic).  One canonical line per
   adddays y m d n | until y m d y m d | cmp y m d y m d | dhcmp y m d h y m d h | rawcmp …
   dvisit|dhvisit|udvisit <kind> <arg>           serde visitor after deserialize_any (kind: i32 str string char i64 u64 …)
   dser y m d [h]                                Serialize (iso-8601 string)
+  dfromstr|dhfromstr|udfromstr|rawfromstr <hex> FromStr
+  fromymd|udfromymd y m d, dhfromymdh|rawfromymdh y m d h   the panicking constructors (`ok …` / `panic`)
+  rawpds game|iso y m d h                       PdsDate for RawDate
+  debug y m d [h] | uddebug y m d | rawdebug y m d h        Debug impls
+  pcmp raw|date|datehour|uniform y m d h y m d h            partial_cmp
+  dateerror                                     Display / source of DateError
   fdp <u64>                                     util::fast_digit_parse
   i64t <hex>                                    scalar::to_i64_t
   frombin-block <start> <count>                 FNV fold of Date/DateHour::from_binary over a range
@@ -256,6 +262,11 @@ def handle : Handler
     pure (showOut showOrd
       ((DateHour.fromYmdhOpt y1 m1 d1 h1).bind fun a =>
         (DateHour.fromYmdhOpt y2 m2 d2 h2).bind fun b => .ok (a.cmp b)))
+  | ["udcmp", y1, m1, d1, y2, m2, d2] => do
+    let y1 ← parseInt? y1; let m1 ← parseNat? m1; let d1 ← parseNat? d1
+    let y2 ← parseInt? y2; let m2 ← parseNat? m2; let d2 ← parseNat? d2
+    pure (showOut showOrd
+      ((UniformDate.fromYmdOpt y1 m1 d1).bind fun a => (UniformDate.fromYmdOpt y2 m2 d2).bind fun b => .ok (a.cmp b)))
   | ["rawcmp", y1, m1, d1, h1, y2, m2, d2, h2] => do
     let y1 ← parseInt? y1; let m1 ← parseNat? m1; let d1 ← parseNat? d1; let h1 ← parseNat? h1
     let y2 ← parseInt? y2; let m2 ← parseNat? m2; let d2 ← parseNat? d2; let h2 ← parseNat? h2
@@ -271,6 +282,55 @@ def handle : Handler
   | ["dser", y, m, d, h] => do
     let y ← parseInt? y; let m ← parseNat? m; let d ← parseNat? d; let h ← parseNat? h
     pure (showOut toHex ((DateHour.fromYmdhOpt y m d h).bind DateHour.serialize))
+  | ["dfromstr", h] => (parseHex h).map fun s => showOut showDate (Date.fromStr s)
+  | ["dhfromstr", h] => (parseHex h).map fun s => showOut showDateHour (DateHour.fromStr s)
+  | ["udfromstr", h] => (parseHex h).map fun s => showOut showUniform (UniformDate.fromStr s)
+  | ["rawfromstr", h] => (parseHex h).map fun s => showOut showRaw (RawDate.fromStr s)
+  | ["fromymd", y, m, d] => do
+    let y ← parseInt? y; let m ← parseNat? m; let d ← parseNat? d
+    pure (showOut showDate (Date.fromYmd y m d))
+  | ["udfromymd", y, m, d] => do
+    let y ← parseInt? y; let m ← parseNat? m; let d ← parseNat? d
+    pure (showOut showUniform (UniformDate.fromYmd y m d))
+  | ["dhfromymdh", y, m, d, h] => do
+    let y ← parseInt? y; let m ← parseNat? m; let d ← parseNat? d; let h ← parseNat? h
+    pure (showOut showDateHour (DateHour.fromYmdh y m d h))
+  | ["rawfromymdh", y, m, d, h] => do
+    let y ← parseInt? y; let m ← parseNat? m; let d ← parseNat? d; let h ← parseNat? h
+    pure (showOut showRaw (RawDate.fromYmdh y m d h))
+  | ["rawpds", f, y, m, d, h] => do
+    let y ← parseInt? y; let m ← parseNat? m; let d ← parseNat? d; let h ← parseNat? h
+    let r := RawDate.fromYmdhOpt y m d h
+    match f with
+    | "game" => pure (showOut toHex (r.bind RawDate.gameFmt))
+    | "iso" => pure (showOut toHex (r.bind RawDate.iso8601))
+    | _ => none
+  | ["debug", y, m, d] => do
+    let y ← parseInt? y; let m ← parseNat? m; let d ← parseNat? d
+    pure (showOut toHex ((Date.fromYmdOpt y m d).bind Date.debugFmt))
+  | ["debug", y, m, d, h] => do
+    let y ← parseInt? y; let m ← parseNat? m; let d ← parseNat? d; let h ← parseNat? h
+    pure (showOut toHex ((DateHour.fromYmdhOpt y m d h).bind DateHour.debugFmt))
+  | ["uddebug", y, m, d] => do
+    let y ← parseInt? y; let m ← parseNat? m; let d ← parseNat? d
+    pure (showOut toHex ((UniformDate.fromYmdOpt y m d).bind UniformDate.debugFmt))
+  | ["rawdebug", y, m, d, h] => do
+    let y ← parseInt? y; let m ← parseNat? m; let d ← parseNat? d; let h ← parseNat? h
+    pure (showOut toHex ((RawDate.fromYmdhOpt y m d h).map RawDate.debugFmt))
+  | ["pcmp", ty, y1, m1, d1, h1, y2, m2, d2, h2] => do
+    -- partial_cmp of the four types (ty: raw date datehour uniform); hours are ignored for date/uniform
+    let y1 ← parseInt? y1; let m1 ← parseNat? m1; let d1 ← parseNat? d1; let h1 ← parseNat? h1
+    let y2 ← parseInt? y2; let m2 ← parseNat? m2; let d2 ← parseNat? d2; let h2 ← parseNat? h2
+    let pc (a b : Out RawDate) : String :=
+      showOut (fun o => match o with | some o => (showOrd o) | none => "incomparable")
+        (a.bind fun a => b.bind fun b => .ok (RawDate.partialCmp a b))
+    match ty with
+    | "raw" => pure (pc (RawDate.fromYmdhOpt y1 m1 d1 h1) (RawDate.fromYmdhOpt y2 m2 d2 h2))
+    | "date" => pure (pc ((Date.fromYmdOpt y1 m1 d1).map (·.raw)) ((Date.fromYmdOpt y2 m2 d2).map (·.raw)))
+    | "datehour" => pure (pc ((DateHour.fromYmdhOpt y1 m1 d1 h1).map (·.raw)) ((DateHour.fromYmdhOpt y2 m2 d2 h2).map (·.raw)))
+    | "uniform" => pure (pc ((UniformDate.fromYmdOpt y1 m1 d1).map (·.raw)) ((UniformDate.fromYmdOpt y2 m2 d2).map (·.raw)))
+    | _ => none
+  | ["dateerror"] => some s!"ok {toHex dateErrorText} nosource"
   | ["fdp", v] => (parseNat? v).map fun v =>
       match fastDigitParse (BitVec.ofNat 64 v) with
       | some r => s!"ok {r.toNat}"
